@@ -330,7 +330,6 @@ def _boolcast(body, fired):
 def apply(body, fired):
     body = _boolcast(body, fired)
     body = _s6(body, fired)
-    _s7_k[0] = 0
     body = _s7(body, fired)
     ctx = Ctx()
     changed = True
@@ -579,12 +578,12 @@ def _s6(body, fired):
         fired.add('R4')
 
 _S7 = re.compile(r'for\s*\(\s*(\w+)\s*,\s*(\w+)\s*\)\s*in\s*\(\s*([^()]+?)\s*\.\.\s*([^()]+?)\s*\)\s*\.zip\(\s*([^()]+?)\s*\.\.\s*([^()]+?)\s*\)\s*\{')
-_s7_k = [0]
 def _s7(body, fired):
     """S7  for (P, Q) in (A..B).zip(C..D) { BODY }
          -> { let a: usize = A; let c: usize = C; let n: usize = vmin(vsub_sat(B, a), vsub_sat(D, c)); let mut z = 0; while z < n { let P = a + z; let Q = c + z; BODY z += 1; } }
     (bounds are evaluated once, before the loop, in source order; they must not mention P or Q; BODY must not `continue` / `break`)"""
     guard = 0
+    k7 = 0      # numbering of the generated variables: LOCAL to this call (units are built concurrently by bin/check: a module-level counter raced and shifted the numbers)
     while True:
         guard += 1
         if guard > 50:
@@ -599,8 +598,8 @@ def _s7(body, fired):
         inner = body[toks[ob].end:toks[cb].start]
         if re.search(r'\b(continue|break)\b', inner) or re.search(r'\b(%s|%s)\b' % (P, Q), A + B + C + D):
             raise ExtractError('R4/S7: unsupported loop body / bounds')
-        _s7_k[0] += 1
-        K = _s7_k[0]
+        k7 += 1
+        K = k7
         new = (';{ let za__%d: usize = %s; let zb__%d: usize = %s; let zc__%d: usize = %s; let zd__%d: usize = %s; let zn__%d: usize = vmin(vsub_sat(zb__%d, za__%d), vsub_sat(zd__%d, zc__%d)); let mut z__%d: usize = 0;\nwhile z__%d < zn__%d\n{ let %s: usize = za__%d + z__%d; let %s: usize = zc__%d + z__%d;'
                % (K, A, K, B, K, C, K, D, K, K, K, K, K, K, K, K, P, K, K, Q, K, K)
                + inner + ' z__%d += 1; } }' % K)
